@@ -103,6 +103,53 @@ def run(ctx):
         enc = sorted({(t_.get("res") or "").split("::")[-1] for _bi, t_ in cb_.calls() if (t_.get("res") or "").startswith("common_file_operations::") or (t_.get("res") or "").startswith("chardat::")} - {"calc_checksum"})
         ctx.ob("CODEC", "checksum-comment-encoder", "write_string" in enc and all(e_ in ("write_string", "write_bool_as") for e_ in enc), f"calc_checksum encodes its input with local helpers {enc}; the comment must go through write_string, the converter of the comment field", cb_.file, cb_.line)
 
+    # ---- CODEC gear-id marker: the item-id marker is *added* on write and *subtracted* on read with the same constant.
+    # (`id | M` / `id & !M` is an inverse pair only for ids that share no bit with M — the defect repaired by the
+    # fix: commit recorded in known_findings.jsonl; a mask form is reported, an unrecognised form fails closed.)
+    from ..sym import Explorer as _Ex, walk as _walk, show as _show
+
+    def _ret_trees(fn):
+        b = prog.body(fn)
+        if not b:
+            return None, None
+        return b, [(p.conds, p.env.local(0)) for p in _Ex(b).explore() if p.end == "return"]
+
+    def _consts(e):
+        return {x[1] for x in _walk(e) if isinstance(x, tuple) and x and x[0] == "k" and isinstance(x[1], int)}
+
+    def _ops(e):
+        out = set()
+        for x in _walk(e):
+            if isinstance(x, tuple) and x:
+                if x[0] == "bin":
+                    out.add(x[1])
+                elif x[0] == "un":
+                    out.add("un:" + str(x[1]))
+                elif x[0] == "call":
+                    out.add(str(x[1]).split("::")[-1])
+        return out
+
+    wb_, wt = _ret_trees("gearsets::convert_to_gear_id")
+    rb_, rt = _ret_trees("gearsets::convert_from_gear_id")
+    if not wt or not rt:
+        ctx.fail_closed("CODEC", "gear-id marker converters convert_to_gear_id / convert_from_gear_id not found")
+    else:
+        MASKS_ = {"BitOr", "BitAnd", "BitXor", "un:Not"}
+        ADD_ = {"Add", "WAdd", "wrapping_add"}
+        SUB_ = {"Sub", "WSub", "wrapping_sub", "checked_sub"}
+        w_ops = set().union(*[_ops(t) for _c, t in wt])
+        r_ops = set().union(*[_ops(t) for _c, t in rt] + [_ops(c) for cs, _t in rt for c in cs])
+        w_k = set().union(*[_consts(t) for _c, t in wt])
+        r_k = set().union(*[_consts(t) for _c, t in rt])
+        desc = f"writer {[_show(t)[:80] for _c, t in wt]}; reader {[_show(t)[:80] for _c, t in rt]}"
+        if (w_ops | r_ops) & MASKS_:
+            ctx.ob("CODEC", "gear-id-marker|additive", False, f"the item-id marker is applied with bit operations ({sorted((w_ops | r_ops) & MASKS_)}): write/read are inverse only for ids sharing no bit with the marker; {desc}", wb_.file, wb_.line)
+        elif (w_ops & ADD_) and (r_ops & SUB_) and not (w_ops & SUB_) and not (r_ops & ADD_):
+            ctx.ob("CODEC", "gear-id-marker|additive", True, f"marker added on write and subtracted on read; {desc}", wb_.file, wb_.line, sample=True)
+            ctx.ob("CODEC", "gear-id-marker|same-constant", w_k == r_k == {1_000_000}, f"marker constants: writer {sorted(w_k)}, reader {sorted(r_k)}; documented marker 1000000 on both sides", wb_.file, wb_.line)
+        else:
+            ctx.fail_closed("CODEC", f"gear-id marker converters have an unrecognised form: {desc}")
+
     # ---- CONST
     for path, want, what in (
         ("gearsets::GEARSET_KEY", 0x73, "obfuscation key"),
